@@ -579,13 +579,21 @@ KNOWN_PROBES = [
                          ('states', [('leaf', 'HTTPServer', None), ('leaf', 'HttpServer', None)]),
                          ('events', [('go', [('transition', [('from', ['HTTPServer']), ('to', 'HttpServer')])])])]),
     ('dynamic-no-events', [('name', 'M'), ('initial', 'A'), ('dynamic', True), ('states', [('leaf', 'A', None)])]),
+    # a concrete context type the README does not ask anything of: without Default (dynamic wrapper), without Debug
+    ('concrete-context-not-default', [('name', 'M'), ('initial', 'A'), ('context', 'crate::NoDefault'), ('dynamic', True),
+                                      ('states', [('leaf', 'A', None), ('leaf', 'B', None)]),
+                                      ('events', [('go', [('transition', [('from', ['A']), ('to', 'B')])])])]),
+    ('concrete-context-not-debug', [('name', 'M'), ('initial', 'A'), ('context', 'crate::NoDebug'),
+                                    ('states', [('leaf', 'A', None), ('leaf', 'B', None)]),
+                                    ('events', [('go', [('transition', [('from', ['A']), ('to', 'B')])])])]),
 ]
 
 
 def k3_known_probes(ctx):
     mods = [('k%d' % i, invocation_module(d, hooks=False)) for i, (_, d) in enumerate(KNOWN_PROBES)]
     crate = os.path.join(ctx.dir, 'k3k')
-    ties_k3.write_lib_crate(crate, mods, extra_root=ties_k3.ROOT_TYPES)
+    ties_k3.write_lib_crate(crate, mods, extra_root=ties_k3.ROOT_TYPES +
+                            '#[derive(Debug)] pub struct NoDefault(pub u32);\npub struct NoDebug(pub u32);\nimpl Default for NoDebug { fn default() -> Self { NoDebug(0) } }\n')
     rc, diags, se = ties_k3.cargo_check(crate)
     bad = {}
     for dg in diags:
